@@ -331,7 +331,7 @@ Section WFlat.
       - destruct (t_struct t_run (B "PublicKey_MarshalJSON") (pubkey_fields id o' p)) as [o''|]; [|discriminate].
         intros H. inversion H; subst. reflexivity. }
     destruct (bytes_eqb writer (B "JSONWriteTimeProp")).
-    { destruct v as [[ | | | |t0| | | | | | | | ]|]; try discriminate. intros H. inversion H. reflexivity. }
+    { destruct v as [[ | | | |t0| | | | | | | | ]|]; try discriminate. destruct (time_writable t0); intros H; inversion H; reflexivity. }
     destruct (bytes_eqb writer (B "JSONWriteDurationProp")).
     { destruct v as [[ | | | | |d| | | | | | | ]|]; try discriminate. destruct (fmt_xsd_duration d); [|discriminate]. intros H. inversion H. reflexivity. }
     destruct (bytes_eqb writer (B "JSONWriteIntProp")); [intros H; inversion H; reflexivity|].
@@ -382,8 +382,8 @@ Section WFlat.
       { apply bytes_eqb_eq in E3. subst writer. vm_compute in Hw. discriminate. }
       destruct (bytes_eqb writer (B "JSONWriteProp")) eqn:E4.
       { apply bytes_eqb_eq in E4. subst writer. vm_compute in Hw. discriminate. }
-      destruct (bytes_eqb writer (B "JSONWriteTimeProp")).
-      { destruct (path_get path fs) as [[ | | | |t0| | | | | | | | ]|]; try discriminate. intros H. inversion H. eexists; reflexivity. }
+      destruct (bytes_eqb writer (B "JSONWriteTimeProp")) eqn:E5.
+      { apply bytes_eqb_eq in E5. subst writer. vm_compute in Hw. discriminate. }
       destruct (bytes_eqb writer (B "JSONWriteDurationProp")).
       { destruct (path_get path fs) as [[ | | | | |d| | | | | | | ]|]; try discriminate. destruct (fmt_xsd_duration d); [|discriminate].
         intros H. inversion H. eexists; reflexivity. }
